@@ -8,7 +8,10 @@ A *case* is a JSON-able dict (all numbers are written to the input with repr(), 
      "n": cells, "shifts": k, "flow": forward|back|diffusion_only, "bc": [first, last],
      "lengths": [n], "disp": [n], "diffc": D, "timest": t, "substeps": f, "correct_disp": bool,
      "stag": null | {"mode": "exch", "exch_f", "th_m", "th_im", "wratio": "por"|"one"}
-                  | {"mode": "mix", "a": [n fractions], "wim": [n water masses]},
+                  | {"mode": "mix", "a": [n fractions], "wim": [n water masses]}
+                  | {"mode": "layers", "L": 2|3, "w": [L lists of n water masses], "x": [L lists of n fractions],
+                     "assign": [L lists of n palette indices]}   (stagnant layer l of mobile cell i is cell i + 1 + l*n;
+                     x[l][i] = part of the smaller of the two water masses exchanged between layers l and l+1, 0 = mobile),
      "multi_d": null | {"Dw", "por", "por_lim", "n", "pors": null | [cells...]},
      "implicit": null | {"max_mixf", "min_lm"},
      "temp": T, "palette": [{"pH", "comps": [[el, molality]...]}...],
@@ -113,7 +116,7 @@ def column(draw, tier="quick", fam=None):
         shifts = draw(st.integers(1, smax))
         _diffusion(draw, case, n, mode, quick)
         if draw(st.integers(0, 3)) == 0 and n >= 1:
-            _stagnant(draw, case, n, mode, solids=(fam == "solids"))
+            _stagnant(draw, case, n, mode, solids=(fam == "solids"), layers_ok=(mode != "implicit"))
     elif fam == "mixing":
         # single diffusion coefficient, anything else free
         n = draw(st.integers(1, nmax))
@@ -128,10 +131,27 @@ def column(draw, tier="quick", fam=None):
             case["disp"] = [float("%.3g" % (lmin * draw(st.sampled_from([0.05, 0.2, 0.5, 1.0, 2.0]))))] * n
         else:
             case["disp"] = [float("%.3g" % (lmin * draw(st.sampled_from([0.0, 0.05, 0.2, 0.5, 1.0, 2.0])))) for _ in range(n)]
+        if n >= 2 and case["flow"] != "diffusion_only" and draw(st.integers(0, 2)) == 0:
+            # strong contrast in an END cell next to a constant boundary: its boundary term disp/length (or the short
+            # length) dominates the number of mixing runs of the whole column
+            end = draw(st.sampled_from([0, n - 1, n - 1]))
+            case["bc"][0 if end == 0 else 1] = "constant"
+            a0 = draw(st.sampled_from([0.0, 0.05, 0.1, 0.2, 0.5]))
+            if draw(st.booleans()):
+                l0 = case["lengths"][0] if equal else lmin
+                case["lengths"] = [l0] * n
+                case["disp"] = [float("%.3g" % (l0 * a0))] * n
+                case["disp"][end] = float("%.3g" % (l0 * draw(st.sampled_from([0.8, 1.0, 1.2, 1.5, 1.8, 2.0, 2.2, 2.5, 3.0, 4.0]))))
+            else:
+                l0 = draw(cg.logu(0.05, 1.0, 3))
+                case["lengths"] = [l0] * n
+                case["lengths"][end] = float("%.3g" % (l0 * draw(st.sampled_from([0.05, 0.1, 0.15, 0.2, 0.3]))))
+                case["disp"] = [float("%.3g" % (l0 * max(a0, 0.05)))] * n
+            case["end_contrast"] = end
         shifts = draw(st.integers(1, smax))
         _diffusion(draw, case, n, "single", quick, allow_zero=True)
         if draw(st.integers(0, 3)) == 0:
-            _stagnant(draw, case, n, "single")
+            _stagnant(draw, case, n, "single", layers_ok=True)
     else:  # other: multicomponent diffusion with open boundaries / flow (no clause of the statement applies beyond completion)
         n = draw(st.integers(2, min(nmax, 8)))
         case["flow"] = draw(st.sampled_from(["forward", "back", "diffusion_only"]))
@@ -179,6 +199,9 @@ def column(draw, tier="quick", fam=None):
         case["water"] = [w] * n
     if case["stag"] is not None:
         case["stag_assign"] = [draw(st.integers(0, npal - 1)) for _ in range(n)]
+        if case["stag"]["mode"] == "layers":
+            case["stag"]["assign"] = [case["stag_assign"]] + [[draw(st.integers(0, npal - 1)) for _ in range(n)]
+                                                              for _ in range(case["stag"]["L"] - 1)]
     if fam == "solids":
         kind = draw(st.sampled_from(["both", "both", "calcite", "exchanger"]))
         s = {"calcite": None, "cec": None, "co2": False}
@@ -223,8 +246,21 @@ def _diffusion(draw, case, n, mode, quick, allow_zero=False):
         case["implicit"] = {"max_mixf": draw(st.sampled_from([1.0, 1.0, 0.7, 0.5, 0.3])), "min_lm": draw(st.sampled_from([-30.0, -30.0, -20.0]))}
 
 
-def _stagnant(draw, case, n, mode, solids=False):
+def _stagnant(draw, case, n, mode, solids=False, layers_ok=False):
     md = case["multi_d"]
+    if layers_ok and draw(st.integers(0, 2)) == 0:
+        # 2-3 stagnant layers linked by explicit, mass-conserving MIX pairs: mobile <-> layer 1 <-> layer 2 (<-> layer 3)
+        L = draw(st.sampled_from([2, 2, 3]))
+        if md is not None:
+            md["pors"] = None
+        sc = 1.0 if md is None else md["Dw"] / 9.31e-9
+        fr = [0.0, 0.02, 0.1, 0.2, 0.3, 0.45] if md is None else [0.0, 0.02, 0.05, 0.1]
+        wl = [0.25, 0.5, 1.0, 1.0, 2.0] if md is None else [0.5, 1.0, 1.0, 2.0]
+        case["stag"] = {"mode": "layers", "L": L,
+                        "w": [[draw(st.sampled_from(wl)) for _ in range(n)] for _ in range(L)],
+                        "x": [[float("%.3g" % (draw(st.sampled_from(fr)) * sc)) for _ in range(n)] for _ in range(L)],
+                        "assign": None}
+        return
     # with multi_d a MIX fraction f between a mobile and a stagnant cell is read as a geometry factor: the fraction that
     # is effectively exchanged for a species is f * Dw(species) / default_Dw (find_J), so f is scaled down by
     # default_Dw / Dw(H+) to keep the explicit scheme stable; per-cell porosities are not combined with stagnant cells
@@ -256,6 +292,25 @@ def _stagnant(draw, case, n, mode, solids=False):
 
 
 # ------------------------------------------------------------------------------------------------- rendering
+def nlayers(case):
+    s = case["stag"]
+    return 0 if s is None else (s["L"] if s["mode"] == "layers" else 1)
+
+
+def stag_cells(case):
+    """[(cell number, 0-based mobile index, layer)] of all stagnant cells"""
+    n = case["n"]
+    return [(i + 2 + l * n, i, l) for l in range(1, nlayers(case) + 1) for i in range(n)]
+
+
+def layer_water(case, i, l):
+    """water mass of layer l (0 = mobile) of mobile cell i (0-based)"""
+    if l == 0:
+        return case["water"][i]
+    s = case["stag"]
+    return s["w"][l - 1][i] if s["mode"] == "layers" else stag_water(case, i)
+
+
 def stag_water(case, i):
     """water mass of the stagnant cell that belongs to mobile cell i (0-based)"""
     s = case["stag"]
@@ -327,7 +382,30 @@ def render(case):
     for i in range(n):
         P.append(solution_text(i + 1, pal[case["assign"][i]], temp, case["water"][i], cadd))
     P.append(solution_text(n + 1, pal[case["in1"]], temp, case["water"][-1], cadd))
-    if case["stag"] is not None:
+    if case["stag"] is not None and case["stag"]["mode"] == "layers":
+        st_ = case["stag"]
+        for c, i, l in stag_cells(case):
+            P.append(solution_text(c, pal[st_["assign"][l - 1][i]], temp, st_["w"][l - 1][i], cadd))
+        for i in range(n):
+            # exchanged water mass of each pair; every cell keeps its water mass, every pair conserves moles
+            mixes = {}
+            for l in range(st_["L"]):
+                x = st_["x"][l][i]
+                if x == 0.0:
+                    continue
+                wa, wb = layer_water(case, i, l), layer_water(case, i, l + 1)
+                m = x * min(wa, wb)
+                ca = i + 1 if l == 0 else i + 2 + l * n
+                cb = i + 2 + (l + 1) * n
+                mixes.setdefault(ca, {ca: 1.0})
+                mixes.setdefault(cb, {cb: 1.0})
+                mixes[ca][ca] -= m / wa
+                mixes[ca][cb] = m / wb
+                mixes[cb][cb] -= m / wb
+                mixes[cb][ca] = m / wa
+            for c in sorted(mixes):
+                P.append("MIX %d\n" % c + "\n".join(" %d %s" % (k, fmt(v)) for k, v in sorted(mixes[c].items())))
+    elif case["stag"] is not None:
         for i in range(n):
             P.append(solution_text(n + 2 + i, pal[case["stag_assign"][i]], temp, stag_water(case, i), cadd))
         if case["stag"]["mode"] == "mix":
@@ -345,8 +423,7 @@ def render(case):
                 P.append("MIX %d\n %d %s\n %d %s" % (n + 2 + i, n + 2 + i, fmt(1.0 - b), i + 1, fmt(a)))
     if solids:
         cells = list(range(1, n + 1))
-        if case["stag"] is not None:
-            cells += list(range(n + 2, 2 * n + 2))
+        cells += [c for c, i, l in stag_cells(case)]
         for k, c in enumerate(cells):
             i = k % n
             if solids["calcite"] is not None:
@@ -360,7 +437,7 @@ def render(case):
              " -initial_time 0", " -punch_cells 1-%d" % n, " -punch_frequency 1", " -print_cells 1-%d" % n,
              " -print_frequency 1", " -warnings true"]
     else:
-        last = n + 1 if case["stag"] is None else 2 * n + 1
+        last = n * (1 + nlayers(case)) + 1
         L = ["TRANSPORT", " -cells %d" % n, " -shifts %d" % case["shifts"], " -flow_direction %s" % case["flow"],
              " -boundary_conditions %s %s" % (case["bc"][0], case["bc"][1]),
              " -lengths " + " ".join(fmt(x) for x in case["lengths"]),
@@ -375,7 +452,7 @@ def render(case):
         elif s["mode"] == "exch":
             L.append(" -stagnant 1 %s %s %s" % (fmt(s["exch_f"]), fmt(s["th_m"]), fmt(s["th_im"])))
         else:
-            L.append(" -stagnant 1 0 0 0")
+            L.append(" -stagnant %d 0 0 0" % nlayers(case))
         md = case["multi_d"]
         if md is None:
             L.append(" -multi_d false")
